@@ -203,9 +203,9 @@ fn job(ctx: &Ctx, s: &dyn SuiteOps, kind: Kind, thorough: bool) -> JobOut {
             for codec in [Codec::Bincode, Codec::Json] {
                 let Ok(enc) = s.encode(&item, codec) else { continue };
                 for f in &fl {
-                    if !matches!(f.ty, FieldTy::KePk | FieldTy::KeSk) {
-                        continue;
-                    }
+                    // key-exchange keys go through opaque-ke's own serde impls, OPRF elements and
+                    // scalars through voprf's: either way the stored/transported form of the
+                    // message or state has to be the one accepted form
                     let Some(grp) = grp_of(s, f.ty) else { continue };
                     let good = &v[f.off..f.off + f.len];
                     let mut cands: Vec<(String, Vec<u8>)> = vec![];
@@ -218,7 +218,7 @@ fn job(ctx: &Ctx, s: &dyn SuiteOps, kind: Kind, thorough: bool) -> JobOut {
                             }
                         }
                     }
-                    if f.ty == FieldTy::KeSk {
+                    if matches!(f.ty, FieldTy::KeSk | FieldTy::OprfScalar) {
                         let cat = catalog::load(&ctx.verif_dir, grp);
                         if let Some(ord) = cat.order_bytes() {
                             if let Some(n) = cat.add(good, &ord) {
@@ -237,7 +237,7 @@ fn job(ctx: &Ctx, s: &dyn SuiteOps, kind: Kind, thorough: bool) -> JobOut {
                                 if !out.found.iter().any(|x| x.signature == sig) {
                                     out.found.push(Found {
                                         clause: "non_canonical_accepted".into(),
-                                        detail: format!("{} [{:?} via {:?}, field {}] the serde decoder accepted a key encoding that re-encodes differently ({})", s.name(), kind, codec, f.name, which),
+                                        detail: format!("{} [{:?} via {:?}, field {}] the serde decoder accepted a key / element / scalar encoding that re-encodes differently ({})", s.name(), kind, codec, f.name, which),
                                         signature: sig,
                                         case: Case::Decode { suite: s.name().into(), kind, codec, bytes: Hex(planted), expect: "canonical".into(), note: "serde".into() },
                                     });
@@ -257,7 +257,7 @@ fn job(ctx: &Ctx, s: &dyn SuiteOps, kind: Kind, thorough: bool) -> JobOut {
 
 pub fn run(ctx: &Ctx) -> Report {
     let mut rep = Report::new(
-        "for each of the 20 suites x 11 native decoders, from valid encodings harvested from a seeded honest run: truncation to every length, extension by 1..64 bytes (zero / random / own tail), all 256 values of the first and last byte of every group-element and scalar field, substitutions at every offset of those fields (quick: 12 seeded values per offset; thorough: all 255), 8 seeded substitutions per opaque field, scalar + k*order while it fits, top-bit twins for the 25519 groups; plus, through bincode and JSON, all 256 values of the first and last byte (and +order) of every key-exchange public/private key field, which opaque-ke's own serde impls decode with the same group decoders. Oracle: decode Ok => re-encode == input (and length == the fixed length). distinct = (suite, decoder, mutation class, accepted?) combinations",
+        "for each of the 20 suites x 11 native decoders, from valid encodings harvested from a seeded honest run: truncation to every length, extension by 1..64 bytes (zero / random / own tail), all 256 values of the first and last byte of every group-element and scalar field, substitutions at every offset of those fields (quick: 12 seeded values per offset; thorough: all 255), 8 seeded substitutions per opaque field, scalar + k*order while it fits, top-bit twins for the 25519 groups; plus, through bincode and JSON, all 256 values of the first and last byte (and +order) of every key-exchange public/private key field (opaque-ke's own serde impls) and of every OPRF element and scalar field (carried as bytes by voprf's serde impls). Oracle: decode Ok => re-encode == input (and length == the fixed length). distinct = (suite, decoder, mutation class, accepted?) combinations",
     );
     rep.exhaustive = Some(true);
     let suites: Vec<&'static dyn SuiteOps> = SIM_SUITES.to_vec();
@@ -298,7 +298,7 @@ pub fn replay_decode_serde(suite: &str, kind: Kind, codec: Codec, bytes: &[u8]) 
     let it = s.decode(kind, codec, bytes).ok()?;
     let re = s.encode(&it, codec).ok()?;
     if re != bytes {
-        Some("the serde decoder accepted a key encoding that re-encodes differently".into())
+        Some("the serde decoder accepted a key / element / scalar encoding that re-encodes differently".into())
     } else {
         None
     }
